@@ -699,9 +699,11 @@ pub fn par_y(rng: &mut Rng, size: usize, out: &mut Vec<String>) {
         let q = rng.range(1, 3);
         let cap = *rng.pick(&[3usize, 8, 16, 33, 64, 200, 4096]);
         let stop = if rng.chance(1, 4) { Some(rng.range(1, 6)) } else { None };
+        // a third of the cases go through the set-level API (`read_parallel` + `ReusableReader`)
+        let api = if rng.chance(1, 3) { format!("{}2", fmt) } else { fmt.to_string() };
         out.push(format!(
             "Y {} {} {} {} {} {}",
-            fmt, t, q, cap, stop.map(|v| v.to_string()).unwrap_or("-".to_string()), hex_or_dash(&input)
+            api, t, q, cap, stop.map(|v| v.to_string()).unwrap_or("-".to_string()), hex_or_dash(&input)
         ));
     }
 }
